@@ -18,7 +18,7 @@ def main():
     shutil.copy(src / f"demo{X}.py", dst / "demo.py")
     readme = (src / "README.md").read_text() if (src / "README.md").exists() else ""
     meta = {
-        "id": sid, "property": prop, "origin": "independent sub-agent given only the property text and a scratch worktree",
+        "id": sid, "property": prop[:3], "origin": "independent sub-agent given only the property text and a scratch worktree",
         "needs_to_manifest": needs,
         "confirmed": {"demo_on_original_exit": d["demo_on_original"], "existing_tests_with_change": d["tests"], "demo_with_change_exit": d["demo_with_change"],
                       "how": "tools/try_seed.py: scratch worktree under /tmp, PYTHONPATH=<worktree>; demo before / apply / pytest / demo after; worktree removed"},
